@@ -174,13 +174,13 @@ class ProcessModel:
         mixture = getattr(Mixtures, process_frame["mixture"].iloc[0])
 
         if pandas.isna(process_frame["permeate_temperature"].iloc[0]):
-            permeate_temperature = None
+            permeate_temperature = [None] * len(process_frame)
         else:
-            permeate_temperature = process_frame["permeate_temperature"].iloc[0]
+            permeate_temperature = list(process_frame["permeate_temperature"])
         if pandas.isna(process_frame["permeate_pressure"].iloc[0]):
-            permeate_pressure = None
+            permeate_pressure = [None] * len(process_frame)
         else:
-            permeate_pressure = process_frame["permeate_pressure"].iloc[0]
+            permeate_pressure = list(process_frame["permeate_pressure"])
 
         if (
             process_frame["partial_flux_1"].isna().mean() == 0
